@@ -482,7 +482,7 @@ func (c14) Execute(h *core.History) *core.Outcome {
 				if corrupted {
 					// only bindings whose line is intact must be restored
 					ok := false
-					for l := range intact {
+					for l := range intact { // order independent: any match sets ok
 						if strings.HasPrefix(l, b.name+"=") || strings.HasPrefix(l, "func "+b.name+"(") {
 							ok = true
 						}
